@@ -1503,6 +1503,8 @@ func (mgr *Manager) convertStreamJob(allConverters []*converters.CachedConverter
 					results <- result{job, err}
 					return
 				}
+				// The stream isn't in any index file, report it so that the job can finish.
+				results <- result{job, fmt.Errorf("stream %d not found", job.streamID)}
 			}()
 		}
 
